@@ -368,7 +368,7 @@ seeded('seeded-R2C15-enforce-after-check', ['C01', 'C03', 'C05'], ['C01.admit', 
 
 # ---------------------------------------------------------------- behaviour-preserving refactorings written by independent
 # sub-agents (selftest/benign/*.diff, each with the agent's equivalence notes in the .md next to it): no check may fire
-ALL = ['C01', 'C02', 'C03', 'C05', 'C06', 'C07', 'C08', 'C09', 'C10', 'C11', 'C12', 'C13', 'C15', 'C16', 'C17', 'C18', 'C19', 'C20']
+ALL = ['C01', 'C02', 'C03', 'C04', 'C05', 'C06', 'C07', 'C08', 'C09', 'C10', 'C11', 'C12', 'C13', 'C14', 'C15', 'C16', 'C17', 'C18', 'C19', 'C20']
 
 
 def benign_patch(name, props):
@@ -473,3 +473,32 @@ benign_patch('ben7-r4', ['C19', 'C20'])                        # to_py_result() 
 benign_patch('ben5-r2', ALL)                                   # RRT* find_neighbours as filter/map/collect + find_nearest() (lazy-iterator expansion)
 benign_patch('ben5-r3', ALL)                                   # RRT-Connect nearest search as fold over a tuple accumulator
 benign_patch('ben6-r1', ['C03', 'C06', 'C08', 'C09', 'C10', 'C11', 'C13'])   # compound weighted_norm(lazy iterator)
+
+
+# ---------------------------------------------------------------- C04 (partial): stored-state origins and convexity of the regions
+case('c04-rv-interpolate-not-affine', ['C04'], ['C04.convex'],
+     (RV, "            out_state.values[i] = from.values[i] + (to.values[i] - from.values[i]) * t;",
+      "            out_state.values[i] = from.values[i] + (to.values[i] + from.values[i]) * t;"))
+case('c04-rv-interpolate-overshoot', ['C04'], ['C04.convex'],
+     (RV, "            out_state.values[i] = from.values[i] + (to.values[i] - from.values[i]) * t;",
+      "            out_state.values[i] = from.values[i] + (to.values[i] - from.values[i]) * (t * 1.5);"))
+case('benign-c04-rv-interpolate-named', ['C04', 'C10', 'C09'], [],
+     (RV, "            out_state.values[i] = from.values[i] + (to.values[i] - from.values[i]) * t;",
+      "            let delta = to.values[i] - from.values[i];\n            out_state.values[i] = from.values[i] + delta * t;"))
+
+# ---------------------------------------------------------------- round 5
+seeded('seeded-R5C02-snap-start-to-milestone', ['C02'], ['C02.nonempty'])
+seeded('seeded-R5C05-choose-parent-unsteered', ['C05', 'C17'], ['C05.steer', 'C17.choose'])
+seeded('seeded-R5C06-greedy-connect-loop', ['C06', 'C16'], ['C06.loops', 'C16.one'])
+seeded('seeded-R5C11-zero-quaternion-kept', ['C11'], ['C11.canon'])
+seeded('seeded-R5C12-huge-angle', ['C12', 'C10'], ['C12.range'])
+seeded('seeded-R5C16-nearest-early-exit', ['C16'], ['C16.nearest'])
+seeded('seeded-R5C17-nearest-excluded-from-rewire', ['C17'], ['C17.rewire'])
+seeded('seeded-R5C18-skip-coincident-start', ['C18', 'C03'], ['C18.guards'])
+seeded('seeded-R5C19-clamp-start', ['C19'], ['C19.lossless'])
+seeded('seeded-R5C20-retry-once', ['C20'], ['C20.validity'])
+for _k in (1, 2, 3, 4, 5):
+    benign_patch('ben11-r%d' % _k, ALL)                         # planner set-up: let-else gates, Node::root, loop-as-expression, out_of_time() closure, PRM context()
+    benign_patch('ben12-r%d' % _k, ['C19', 'C20'])              # bindings: combinator chains, with_planner! macro, value_error helper, macro impls, method() helper
+    benign_patch('ben13-r%d' % _k, ALL)                         # check_motion as Iterator::all / match / while counter; RRT* cost over states; index before push
+benign_patch('rrtstar-skip-parent-local', ALL)                 # RRT* rewire loop skipping the chosen parent through a local
